@@ -10,7 +10,7 @@ operators, callees, literals and data flow that carry the behaviour."""
 import ast
 import re
 
-from .canon import canon_node
+from .canon import canon_node, is_noise
 
 _MV = "_MV_"
 _NV = "_NV_"
@@ -83,6 +83,9 @@ def _match(p, n, b):
     if isinstance(p, list):
         if not isinstance(n, list):
             return False
+        # logging calls / `pass` / bare strings in the source never take part in a statement-list match
+        if n and all(isinstance(x, ast.stmt) for x in n) and not any(isinstance(x, ast.stmt) and is_noise(x) for x in p):
+            n = [x for x in n if not is_noise(x)]
         # `$_rest` as the last statement of a block matches any (possibly empty) remainder
         if p and isinstance(p[-1], ast.Expr) and isinstance(p[-1].value, ast.Name) and p[-1].value.id == _MV + "_rest":
             if len(n) < len(p) - 1:
